@@ -552,3 +552,123 @@ Qed.
 
 Lemma utf8_wf_ok : forall t, utf8_wf t = true -> utf8_ok t = true.
 Proof. intros t H. unfold utf8_ok. eapply utf8_wf_cont_ok; eauto. Qed.
+
+(* ---- the character at a boundary (Parser::char_range_at) ------------------------ *)
+
+Lemma in_range_bounds : forall lo hi b, in_range lo hi b = true -> (lo <= b <= hi)%N.
+Proof.
+  intros lo hi b H. unfold in_range, nble in H. apply andb_true_iff in H as [A B].
+  apply N.leb_le in A. apply N.leb_le in B. lia.
+Qed.
+
+Lemma utf8_wf_head : forall t,
+  utf8_wf t = true -> match t with c :: _ => is_cont c = false | [] => True end.
+Proof.
+  intros [|c r] H; [exact I|]. cbn [utf8_wf] in H.
+  destruct (is_cont c) eqn:C; [|reflexivity]. exfalso. apply is_cont_range in C.
+  destruct (N.ltb_spec c 128); [lia|].
+  destruct (in_range 194 223 c) eqn:R1; [apply in_range_bounds in R1; lia|].
+  destruct (in_range 224 239 c) eqn:R2; [apply in_range_bounds in R2; lia|].
+  destruct (in_range 240 244 c) eqn:R3; [apply in_range_bounds in R3; lia|discriminate].
+Qed.
+
+Definition char_stop (t : list N) (p : nat) : Prop :=
+  let e := p + char_len (nth p t 0%N) in
+  e <= length t /\ (e = length t \/ is_cont (nth e t 0%N) = false).
+
+Lemma head_stop : forall (r : list N), utf8_wf r = true ->
+  0 = length r \/ is_cont (nth 0 r 0%N) = false.
+Proof. intros [|c r] H; [left; reflexivity|right; apply (utf8_wf_head _ H)]. Qed.
+
+Lemma char_stop_shift : forall pre t p, char_stop t p -> nth (length pre + p) (pre ++ t) 0%N = nth p t 0%N ->
+  char_stop (pre ++ t) (length pre + p).
+Proof.
+  intros pre t p [L C] E. unfold char_stop. rewrite E. rewrite app_length. cbv zeta. split; [lia|].
+  destruct C as [C|C]; [left; lia|right].
+  replace (length pre + p + char_len (nth p t 0%N)) with (length pre + (p + char_len (nth p t 0%N))) by lia.
+  rewrite app_nth2 by lia. replace (length pre + (p + char_len (nth p t 0%N)) - length pre) with (p + char_len (nth p t 0%N)) by lia.
+  exact C.
+Qed.
+
+(* in well-formed UTF-8 a byte that is not a continuation byte starts a character
+   that ends inside the text, on a boundary *)
+Lemma char_end_ok : forall n t p,
+  length t <= n -> utf8_wf t = true -> p < length t -> is_cont (nth p t 0%N) = false -> char_stop t p.
+Proof.
+  induction n as [|n IH]; intros t p Ln W Lp C; [destruct t; simpl in *; lia|].
+  destruct t as [|b r]; [simpl in Lp; lia|]. cbn [utf8_wf] in W.
+  assert (Sh : forall pre t' p', b :: r = pre ++ t' -> p = length pre + p' -> length t' <= n ->
+               utf8_wf t' = true -> p' < length t' -> char_stop (b :: r) p).
+  { intros pre t' p' E Ep Ln' W' Lp'. rewrite E, Ep.
+    assert (Q : nth (length pre + p') (pre ++ t') 0%N = nth p' t' 0%N).
+    { rewrite app_nth2 by lia. f_equal. lia. }
+    apply char_stop_shift; [|exact Q]. apply (IH t' p' Ln' W' Lp').
+    rewrite <- Q, <- E, <- Ep. exact C. }
+  destruct (N.ltb b 128) eqn:A.
+  - destruct p as [|p'].
+    + unfold char_stop. cbn [nth]. unfold char_len. rewrite A. cbn [Nat.add length].
+      split; [lia|]. destruct (head_stop r W) as [Q|Q]; [left; lia|right; exact Q].
+    + apply (Sh [b] r p'); try reflexivity; cbn [length] in *; try lia. exact W.
+  - apply N.ltb_ge in A.
+    destruct (in_range 194 223 b) eqn:R1.
+    { apply in_range_bounds in R1. destruct r as [|c1 r1]; [discriminate|].
+      apply andb_true_iff in W as [C1 W].
+      assert (CL : char_len b = 2).
+      { unfold char_len. destruct (N.ltb_spec b 128); [lia|]. destruct (N.ltb_spec b 224); [reflexivity|lia]. }
+      destruct p as [|[|p']].
+      - unfold char_stop. cbn [nth]. rewrite CL. cbn [Nat.add length nth]. split; [lia|].
+        destruct (head_stop r1 W) as [Q|Q]; [left; lia|right; exact Q].
+      - cbn [nth] in C. congruence.
+      - apply (Sh [b; c1] r1 p'); try reflexivity; cbn [length] in *; try lia. exact W. }
+    destruct (in_range 224 239 b) eqn:R2.
+    { apply in_range_bounds in R2. destruct r as [|c1 [|c2 r2]]; try discriminate.
+      apply andb_true_iff in W as [W W2]. apply andb_true_iff in W as [C1 C2].
+      assert (CL : char_len b = 3).
+      { unfold char_len. destruct (N.ltb_spec b 128); [lia|]. destruct (N.ltb_spec b 224); [lia|].
+        destruct (N.ltb_spec b 240); [reflexivity|lia]. }
+      destruct p as [|[|[|p']]].
+      - unfold char_stop. cbn [nth]. rewrite CL. cbn [Nat.add length nth]. split; [lia|].
+        destruct (head_stop r2 W2) as [Q|Q]; [left; lia|right; exact Q].
+      - cbn [nth] in C. congruence.
+      - cbn [nth] in C. congruence.
+      - apply (Sh [b; c1; c2] r2 p'); try reflexivity; cbn [length] in *; try lia. exact W2. }
+    destruct (in_range 240 244 b) eqn:R3; [|discriminate].
+    { apply in_range_bounds in R3. destruct r as [|c1 [|c2 [|c3 r3]]]; try discriminate.
+      apply andb_true_iff in W as [W W3]. apply andb_true_iff in W as [W C3].
+      apply andb_true_iff in W as [C1 C2].
+      assert (CL : char_len b = 4).
+      { unfold char_len. destruct (N.ltb_spec b 128); [lia|]. destruct (N.ltb_spec b 224); [lia|].
+        destruct (N.ltb_spec b 240); [lia|reflexivity]. }
+      destruct p as [|[|[|[|p']]]].
+      - unfold char_stop. cbn [nth]. rewrite CL. cbn [Nat.add length nth]. split; [lia|].
+        destruct (head_stop r3 W3) as [Q|Q]; [left; lia|right; exact Q].
+      - cbn [nth] in C. congruence.
+      - cbn [nth] in C. congruence.
+      - cbn [nth] in C. congruence.
+      - apply (Sh [b; c1; c2; c3] r3 p'); try reflexivity; cbn [length] in *; try lia. exact W3. }
+Qed.
+
+(* Parser::char_range_at on well-formed UTF-8, at a character boundary inside or at
+   the end of the text: the range ends inside the text on a character boundary *)
+Lemma char_end_boundary : forall text p,
+  utf8_wf text = true -> is_boundary text p = true -> p <= length text ->
+  p <= char_end text p /\ char_end text p <= length text /\ is_boundary text (char_end text p) = true.
+Proof.
+  intros text p W B L. unfold char_end.
+  destruct (nth_error text p) as [b|] eqn:E.
+  - assert (Lp : p < length text) by (apply nth_error_Some; congruence).
+    assert (Nb : nth p text 0%N = b) by (apply nth_error_nth; exact E).
+    assert (C : is_cont (nth p text 0%N) = false).
+    { unfold is_boundary in B. apply orb_true_iff in B as [B|B]; [apply orb_true_iff in B as [B|B]|].
+      - apply Nat.eqb_eq in B. subst p. destruct text as [|c r]; [simpl in Lp; lia|]. apply (utf8_wf_head _ W).
+      - apply Nat.eqb_eq in B. lia.
+      - apply andb_true_iff in B as [_ B]. apply negb_true_iff in B. exact B. }
+    destruct (char_end_ok (length text) text p (le_n _) W Lp C) as [L1 L2]. rewrite Nb in *.
+    split; [lia|]. split; [exact L1|]. unfold is_boundary.
+    destruct (Nat.eq_dec (p + char_len b) (length text)) as [Q|Q].
+    + rewrite Q, Nat.eqb_refl, orb_true_r. reflexivity.
+    + destruct L2 as [L2|L2]; [lia|].
+      assert (T : (p + char_len b <? length text) = true) by (apply Nat.ltb_lt; lia).
+      unfold nthb. rewrite T, L2. cbn. rewrite orb_true_r. reflexivity.
+  - split; [lia|]. split; [exact L|exact B].
+Qed.
